@@ -83,7 +83,7 @@ func (ge *gen) anyNoncePoint() *pt {
 	case 0:
 		return refMul(ge.scalar(), refG())
 	case 1:
-		q := ge.smallX[g.Intn(len(ge.smallX))]
+		q := ge.pickSmallX()
 		if g.Bool() {
 			q = refNeg(q)
 		}
